@@ -53,7 +53,7 @@ pub fn test_case(c: &Case) -> Result<CaseInfo, Fail> {
 }
 
 fn test_case_inner(c: &Case) -> Result<CaseInfo, Fail> {
-    let cfg = ExecCfg { record_probes: false, step_budget: 2_000_000 };
+    let cfg = ExecCfg { record_probes: false, step_budget: 2_000_000, slow_sends: false };
     let mut classes = vec![];
     let desc;
     match c {
